@@ -75,6 +75,15 @@ structure Cls where
   fields : List Field
   deriving DecidableEq, Repr, FromJson, ToJson, Inhabited
 
+/-- the object an assignment binds the attribute to, relative to what the instance currently holds there
+    (which may have been stored while validators were disabled, or without any validation at all) -/
+inductive AssignVal where
+  | fresh      -- a new object
+  | same       -- the very object currently stored (`c.x = c.x`)
+  | equal      -- an equal but distinct object
+  | iadd       -- augmented assignment on the (mutable) stored object: `c.x += [...]`
+  deriving DecidableEq, Repr, FromJson, ToJson, Inhabited
+
 inductive Op where
   | setDisabled (a : Arg)        -- validators.set_disabled(a)
   | setRun (a : Arg)             -- attr.set_run_validators(a)
@@ -84,7 +93,7 @@ inductive Op where
   | exit                         -- innermost open cm.__exit__(None, None, None)
   | exitExc                      -- innermost open cm.__exit__(type(e), e, tb)
   | construct (k : Nat)          -- K(**values) for class k of the hierarchy
-  | assign (k i : Nat)           -- inst_k.<field i> = value   (inst_k: an instance of class k)
+  | assign (k i : Nat) (v : AssignVal)   -- inst_k.<field i> = value   (inst_k: an instance of class k)
   | validate (k : Nat)           -- attr.validate(inst_k)
   deriving DecidableEq, Repr, FromJson, ToJson, Inhabited
 
@@ -287,7 +296,8 @@ def stepObs (c : Case) (st st' : St) : Op → Step
       let o := runInit (initCase cls st.run c.fault)
       mkStep st' none o.exc (o.trace.map (·.id))
     | none => mkStep st' none (some .other) []
-  | .assign k i => match c.classes[k]? with
+  -- no hook looks at what the attribute currently holds: the value's identity plays no role
+  | .assign k i _ => match c.classes[k]? with
     | some cls => (match cls.fields[i]? with
       | some f => let r := runAssign cls st.run c.fault f; mkStep st' none r.exc r.events
       | none => mkStep st' none (some .other) [])
